@@ -150,7 +150,7 @@ def print_assumptions(prop_module: str, theorems: list[str]) -> dict[str, str]:
     """`Print Assumptions` for each property theorem; returns name -> text."""
     d = COQ / "cases" / "_assum"
     d.mkdir(parents=True, exist_ok=True)
-    src = d / f"assum_{prop_module}.v"
+    src = d / f"assum_{prop_module}_{os.getpid()}.v"
     body = [f"From RV Require Import {prop_module}."]
     for t in theorems:
         body.append(f'Goal True. idtac "@@BEGIN {t}". exact I. Qed.')
@@ -159,6 +159,8 @@ def print_assumptions(prop_module: str, theorems: list[str]) -> dict[str, str]:
     src.write_text("\n".join(body) + "\n")
     rc, out = sh(["timeout", "300", "coqc", "-Q", str(COQ), "RV", str(src)], timeout=330, cwd=d)
     res: dict[str, str] = {}
+    for f in d.glob(f"*assum_{prop_module}_{os.getpid()}.*"):
+        f.unlink(missing_ok=True)
     if rc:
         return {t: "ERROR: " + out[-400:] for t in theorems}
     parts = re.split(r"@@BEGIN (\S+)\n", out)
@@ -172,10 +174,16 @@ def coq_eval(tag: str, files: dict[str, str], timeout: int = 900) -> dict[str, t
 
     Returns name -> (rc, output).  Files must `From RV Require Import ...` themselves.
     """
-    d = COQ / "cases" / tag
+    d = COQ / "cases" / f"{tag}-{os.getpid()}"      # per process: concurrent runs of one check do not share files
     d.mkdir(parents=True, exist_ok=True)
-    for old in d.glob("*"):
-        old.unlink()
+    for stale in (COQ / "cases").glob(f"{tag}-*"):   # directories left by finished runs
+        try:
+            pid = int(stale.name.rsplit("-", 1)[1])
+            if pid != os.getpid() and not os.path.exists(f"/proc/{pid}"):
+                import shutil
+                shutil.rmtree(stale, ignore_errors=True)
+        except ValueError:
+            pass
     for name, txt in files.items():
         (d / f"{name}.v").write_text(txt)
     procs = {}
